@@ -74,6 +74,10 @@ func genDocValue(r *Rand, o *DocOpts) string {
 	if o.OddValues {
 		dens = append(dens, 7, 9, 11, 13, 32, 64, 100, 960, 1000, 7919)
 	}
+	if o.OddValues && r.Chance(1, 12) {
+		// lengths below one tick (1/1920 beat at 960 ticks per quarter)
+		return Pick(r, []string{"1/4000", "1/1921", "1/3840", "1/100000", "2/7919"})
+	}
 	d := Pick(r, dens)
 	n := 1 + r.Intn(2*d)
 	return fmt.Sprintf("%d/%d", n, d)
